@@ -211,11 +211,15 @@ pub fn all(data: &Value, args: &Vec<&Value>) -> Result<Value, Error> {
             if !res {
                 return Ok(false);
             };
-            let _parsed_item = Parsed::from_value(i)?;
-            // Evaluate each item as we go, in case we can short-circuit
-            let evaluated_item = _parsed_item.evaluate(data)?;
+            // Evaluate each item as we go, in case we can short-circuit.
+            // Only the items of an array written in the rule are rule
+            // text; the items of a computed collection are plain data.
+            let evaluated_item: Value = match first_arg {
+                Value::Array(_) => Parsed::from_value(i)?.evaluate(data)?.into(),
+                _ => i.clone(),
+            };
             Ok(logic::truthy_from_evaluated(
-                &predicate.evaluate(&evaluated_item.into())?,
+                &predicate.evaluate(&evaluated_item)?,
             ))
         })
     })?;
@@ -293,11 +297,15 @@ pub fn some(data: &Value, args: &Vec<&Value>) -> Result<Value, Error> {
             if res {
                 return Ok(true);
             };
-            let _parsed_item = Parsed::from_value(i)?;
-            // Evaluate each item as we go, in case we can short-circuit
-            let evaluated_item = _parsed_item.evaluate(data)?;
+            // Evaluate each item as we go, in case we can short-circuit.
+            // Only the items of an array written in the rule are rule
+            // text; the items of a computed collection are plain data.
+            let evaluated_item: Value = match first_arg {
+                Value::Array(_) => Parsed::from_value(i)?.evaluate(data)?.into(),
+                _ => i.clone(),
+            };
             Ok(logic::truthy_from_evaluated(
-                &predicate.evaluate(&evaluated_item.into())?,
+                &predicate.evaluate(&evaluated_item)?,
             ))
         })
     })?;
